@@ -58,6 +58,8 @@ Definition raw_word (r : raw) (i : N) : res N := idx (rdata r) i.
 Definition raw_word_unchecked (r : raw) (i : N) : res N := idx_unchecked SITE_RAW_WORD (rdata r) i.
 
 Definition raw_set_bit (r : raw) (bo : N) (value : bool) : res raw :=
+  (* assert!(bit_offset < self.len()) *)
+  if negb (bo <? rlen r) then Panic PAssert else
   let '(index, offset) := split_offset bo in
   let* w := idx (rdata r) index in
   let w1 := N.land w (wnot (N.shiftl 1 offset)) in
